@@ -65,6 +65,10 @@ pub struct Case {
     /// directory as `generate` reads it)
     #[serde(default)]
     pub outer_cwd: bool,
+    /// the file named with -f is a symbolic link to `Monorail.gen.json` in the same directory;
+    /// `generate` writes through it, the lockfile is named after the link
+    #[serde(default)]
+    pub symlinked_config: bool,
 }
 
 /// What the source file holds. `config generate` only reads the configuration from stdin; the
@@ -124,8 +128,8 @@ pub fn strategy() -> impl Strategy<Value = Case> {
         }
         c
     });
-    (prop_oneof![1 => small, 2 => big], vec(tamper(), 4..10), 0u8..=1, proptest::bool::weighted(0.3), proptest::bool::weighted(0.25))
-        .prop_map(|(config, tampers, source_kind, dotted_name, outer_cwd)| Case { config, tampers, source_kind, dotted_name, outer_cwd })
+    (prop_oneof![1 => small, 2 => big], vec(tamper(), 4..10), 0u8..=1, proptest::bool::weighted(0.3), proptest::bool::weighted(0.25), proptest::bool::weighted(0.25))
+        .prop_map(|(config, tampers, source_kind, dotted_name, outer_cwd, symlinked_config)| Case { config, tampers, source_kind, dotted_name, outer_cwd, symlinked_config })
 }
 
 fn apply(orig: &[u8], t: &Tamper) -> Option<Vec<u8>> {
@@ -245,6 +249,11 @@ pub fn check(case: &Case, w: usize) -> CheckResult {
         for i in 0..40 {
             older.targets.push(crate::model::TargetSpec::new(&format!("removed/since/then-{:02}", i)));
         }
+        if case.symlinked_config {
+            let _ = std::fs::remove_file(env.config_path());
+            let _ = std::os::unix::fs::symlink("Monorail.gen.json", env.config_path());
+        }
+        // (written through the link, where there is one)
         std::fs::write(env.config_path(), serde_json::to_string_pretty(&env.with_ports(&older).to_value()).unwrap()).ok();
         env.write_file(lock_name, b"{\"checksum\":\"0000000000000000000000000000000000000000000000000000000000000000\",\"padding\":\"an older and longer lockfile\"}\n");
     }
@@ -425,6 +434,7 @@ pub fn check(case: &Case, w: usize) -> CheckResult {
             })
             .class_if(t.keep_mtime, "mtime-preserved")
             .class_if(case.outer_cwd, "invoked-from-the-directory-above-the-repository")
+            .class_if(case.symlinked_config, "configuration-file-is-a-symbolic-link")
             .class(if off < 8192 { "offset<8192" } else if off < 16384 { "offset<16384" } else { "offset>=16384" });
     }
     // generating again from the same source repairs a damaged generated file: afterwards the three
@@ -495,6 +505,7 @@ pub fn exhaustive_cases() -> Vec<Case> {
             source_kind: 1,
             dotted_name: false,
             outer_cwd: false,
+            symlinked_config: false,
         })
         .collect()
 }
